@@ -879,7 +879,9 @@ def gen_status():
                            "_parse_date", "_parse_date_value (tzids None/callable/mapping block recognised verbatim)",
                            "_freq_map", "_weekday_map", "FREQNAMES", "rrule.__str__"],
             "hand_modelled_ast_pinned": [],
-            "hand_modelled_unpinned": ["rrule.__init__ (argument processing; differential correspondence only)"]}
+            "hand_modelled_unpinned": ["rrule.__init__ (argument processing `ctor`): differential correspondence, and proved equal "
+                                       "to rr's RRNorm.normalize (C13_bridge_ctor_is_normalize), which C01 proves equal to the code "
+                                       "regenerated from rrule.__init__ (C01_gen_init_is_model)"]}
 
 
 def new_stats():
@@ -1260,7 +1262,11 @@ def main():
         "differential_only": ["tzinfos option (zoned stream: implementation vs keyword construction only)",
                               "tzids=None (tz.gettz) beyond the names used",
                               "date values outside YYYYMMDD[THHMMSS[Z]] (generic parser)",
-                              "occurrence equality of equal rule states (C01's iteration)",
+                              "occurrences of the REAL objects (first %d compared per case); in the model: equal rule state => "
+                              "equal RRNorm.normalize result => equal result of C01's iteration function "
+                              "(C13_bridge_*, C13_str_roundtrip_occurrences); the step from RRNorm.normalize to the real "
+                              "constructor is C01_gen_init_is_model (rcache), the map keyword record -> RRNorm.raw "
+                              "(RstrBridge.raw_of) is hand-written glue" % NOCC,
                               "non-ASCII text",
                               "TZID combined with lower-casing of the whole text, TZID on an EXDATE line at "
                               "whole-text level (proved at line level)"],
@@ -1270,7 +1276,10 @@ def main():
     }
     C.write_evidence(CID, tier, t0, props, cov,
                      ["parser.parse modelled only on the compact forms YYYYMMDD[THHMMSS[Z]]",
-                      "equal constructor state => equal occurrences is checked on the real library, not proved here (C01)",
+                      "equal constructor state => equal RRNorm rule => equal occurrences of C01's iteration function is proved "
+                      "(coq/rstr/RstrBridge.v); that C01's function is what the library iterates is C01's business; the real "
+                      "objects are compared on their first occurrences per case",
+                      "integers of more than 4300 digits (CPython's int() limit) are not generated; the model's int() has no limit",
                       "text over ASCII; CPython str.upper/split/splitlines/strip/int modelled (coq/rstr/RstrPrim.v) "
                       "and compared with CPython on every ASCII character",
                       "calendar.firstweekday() and datetime.now() are parameters of the model"],
